@@ -25,8 +25,9 @@
 (*   withvec 249-268                 -> Withvec (remainder of x, argmax,   *)
 (*                                      replace, lattice() again = phase 2 *)
 (*                                      of the same machine)               *)
-(*   iter3d 298-312, find_lattice 321-400 (triple enumeration, degenerate  *)
-(*   triples skipped)                -> Iter3d / FLTried                   *)
+(*   iter3d 298-312, find_lattice 321-400 (triple enumeration; per triple: *)
+(*   too short -> continue, BadVectors -> pass, score, fraction > 0.9 ->   *)
+(*   return)                         -> Iter3d / FLStatus / FLRun          *)
 (*                                                                         *)
 (* A case: cell (reduced integer basis of a usual cell, rows) and a        *)
 (* unimodular scrambling U; input basis v0 = U . CellB(cell).  Vectors     *)
@@ -53,7 +54,8 @@
 (*          back with r2c . n).  TRUE: (c2r^T . x , r2c^T . n).            *)
 (*   WVFIX  FALSE: withvec replaces the vector chosen by argmax|r| over    *)
 (*          the CARTESIAN components of the remainder (as written).        *)
-(*          TRUE: argmax over its fractional indices (as documented).      *)
+(*          TRUE: argmax over its fractional indices (as documented; any   *)
+(*          of the equal maxima, the last bit of inv() decides).           *)
 (*                                                                         *)
 (* invariants / properties (all stated without reference to the steps):    *)
 (*   SameLattice  v = T.v0 with T integer, det T = +-1, in EVERY state     *)
@@ -70,9 +72,22 @@
 (*                score = #{ |d|^2/256 < tol^2 }                           *)
 (*   WithvecOK    withvec does not end in BadVectors and the new lattice   *)
 (*                is exactly  L(B) + Z x   (index 2)                       *)
+(*   FindLatticeOK  what find_lattice returns generates the lattice of all *)
+(*                the vectors given (collinear / coplanar / sublattice /   *)
+(*                too short / too small triples are passed over)           *)
 (*   MinkAlways   NOT promised (LatticeRed_mink.cfg shows the counter-     *)
 (*                example); Emit carries the flag `mink`.                  *)
-(* bounds: |entries| < 100, MAXIT = 10, <= ~3000 scramblings per cell.     *)
+(* laws that hold for the code AS WRITTEN (TIES = "even", MODFIX = FALSE): *)
+(*   all but IndexCol (needs COLFIX) and WithvecOK (needs WVFIX); with     *)
+(*   TIES = "any" Variant and NoFlaw need MODFIX.  Configurations:         *)
+(*   _q/_t/_deep (as written except COLFIX, WVFIX), _qf/_tf (all three     *)
+(*   repairs), _asis_col/_asis_wv/_ties/_ties_flaw (one repair missing:    *)
+(*   the counterexample is replayed on the real code), _asis_wv_emit       *)
+(*   (withvec records of the code as written), _ties_fixed, _mink.         *)
+(* Emit: one record per finished case: kind "red" (reduction, probes with  *)
+(*   the as-written 'col' results nearcol_asis / coltie, scores, iter3d,   *)
+(*   three find_lattice runs) and kind "wv" (one per withvec outcome).     *)
+(* bounds: |entries| < 100, MAXIT = 10, <= ~7000 scramblings per cell.     *)
 (***************************************************************************)
 EXTENDS ExactLA, Json
 
@@ -100,6 +115,8 @@ AllCells == {"cubicP", "fcc", "bcc", "hex", "tet", "ortho", "mono", "tric", "rho
 CELLS_q == AllCells
 CELLS_t == AllCells
 CELLS_tie == {"fcc", "hex", "cubicP"}
+CELLS_flaw == {"fcc"}
+CELLS_cx == {"fcc", "mono"}
 
 \* ---- unimodular scramblings (cfg files cannot hold tuples: `SCR <- SCR_q`) -----------------
 Shear(i, j, k) == [a \in Idx |-> [b \in Idx |-> IF a = i /\ b = j THEN k ELSE I3[a][b]]]
@@ -220,11 +237,15 @@ HandKeep == HandK(FALSE)
 \* lattice.withvec(x),  x = (HWV + cent/2) . out : the fractional indices of x are half-integers, so every
 \* rounding in nearest() is a tie decided by the last bit of inv(): e[i] = +-cent[i] are the possible remainders
 ArgMaxFirst(key) == CHOOSE j \in Idx : (\A i \in Idx : key[j] >= key[i]) /\ (\A i \in Idx : i < j => key[i] < key[j])
+ArgMaxSet(key) == { j \in Idx : \A i \in Idx : key[j] >= key[i] }
 AbsV(u) == << Abs(u[1]), Abs(u[2]), Abs(u[3]) >>
+\* as written the key is |r| (cartesian, exact: first maximum).  Repaired, the key is |fractional index| = 1/2 for every
+\* non-zero one, computed with inv(): which of the equal maxima wins is decided by the last bit -> any of them
+WvChoice(e, r2) == IF WVFIX THEN ArgMaxSet(AbsV(e)) ELSE {ArgMaxFirst(AbsV(r2))}
 Withvec == /\ pc = "wv"
            /\ \E e \in { f \in {-1,0,1} \X {-1,0,1} \X {-1,0,1} : AbsV(f) = cent } :
+              \E w \in WvChoice(e, RowComb(e, out)) :
                 LET r2 == RowComb(e, out)                       \* 2 r, cartesian
-                    w  == ArgMaxFirst(IF WVFIX THEN AbsV(e) ELSE AbsV(r2))
                     W  == [j \in Idx |-> IF j = w THEN r2 ELSE VScale(2, out[j])]
                     WT == << W[1], W[2], W[3] >>
                 IN /\ wv' = [e |-> e, w |-> w, r2 |-> r2,
@@ -238,6 +259,8 @@ Withvec == /\ pc = "wv"
 
 Next == StepEff \/ StepNop \/ SweepEnd \/ TestConv \/ TestAgain \/ SignFlip \/ SignKeep \/ HandSwap \/ HandKeep \/ Withvec
 Spec == Init /\ [][Next]_vars
+\* VIEW for the TIES = "any" searches: the counters and sw1 do not influence the behaviour
+ViewCore == <<cell, U, cent, v0, v, vl, s, it, inloop, pc, phase>>
 
 \* ---- nearest / remainders / score, as written --------------------------------------------
 \* vectors are passed 16-fold (g16); indices are  round( num / (16 det) )
@@ -249,14 +272,23 @@ NearestRow(A, g16) == RowComb(HklRow(A, g16), A)
 HklColAsIs(A, x16) == RoundV(MV(Adj(A), x16), Det(A))
 NearestColAsIs(A, x16) == MV(A, HklColAsIs(A, x16))
 NearestCol(A, x16) == IF COLFIX THEN NearestRow(A, x16) ELSE NearestColAsIs(A, x16)
+\* a component of A^-1 . x is exactly k + 1/2: the real rounding is decided by the last bit of inv()
+ColTie(A, x16) == LET num == MV(Adj(A), x16) IN \E j \in Idx : IsTie(Sgn(Det(A))*num[j], 16*Abs(Det(A)))
 \* score: diffs = vecs - nearest ; int_err = flip(diffs) ; count |int_err|^2 < tol^2   (16ths, tol = t/10)
 ScoreRow(A, t) == Cardinality({ n \in 1..Len(PROBES) :
                      LET g16 == VAdd(VScale(16, RowComb(PROBES[n][1], v0)), RowComb(PROBES[n][2], A))
                          rem == VSub(g16, VScale(16, NearestRow(A, g16)))
                          num == CoordNum(rem, A)                   \* int_err * 16 * det
                      IN 100 * Norm2(num) < 256 * t * t * Det(A) * Det(A) })
+\* score of 'col' vectors as written: int_err = c2r . (x - r2c . round(c2r . x)),  c2r = A^-1
+ScoreColAsIs(A, t) == Cardinality({ n \in 1..Len(PROBES) :
+                     LET x16 == VAdd(VScale(16, RowComb(PROBES[n][1], v0)), RowComb(PROBES[n][2], A))
+                         rem == VSub(x16, VScale(16, NearestColAsIs(A, x16)))
+                         num == MV(Adj(A), rem)
+                     IN 100 * Norm2(num) < 256 * t * t * Det(A) * Det(A) })
 
 \* ---- iter3d / find_lattice ---------------------------------------------------------------
+B2I(b) == IF b THEN 1 ELSE 0
 \* for k in range(2,n): for j in range(1,k): for i in range(j): yield i,j,k     (0-based)
 RECURSIVE Iter3dK(_, _)
 \* JI(k) = all (i, j, k) with 0 <= i < j < k, j ascending, then i ascending
@@ -267,13 +299,36 @@ Iter3d(n) == Iter3dK(2, n)
 ASSUME Iter3d(4) = << <<0,1,2>>, <<0,1,3>>, <<0,2,3>>, <<1,2,3>> >>
 ASSUME \A n \in 0..7 : /\ Len(Iter3d(n)) = (n * (n-1) * (n-2)) \div 6
                        /\ { Iter3d(n)[a] : a \in 1..Len(Iter3d(n)) } = { t \in (0..(n-1)) \X (0..(n-1)) \X (0..(n-1)) : t[1] < t[2] /\ t[2] < t[3] }
-\* the vector list handed to find_lattice: collinear and coplanar triples come first
-FLVecs == << v0[1], VScale(2, v0[1]), v0[2], VAdd(v0[1], v0[2]), v0[3], VSub(v0[3], v0[2]) >>
-FLT == Iter3d(Len(FLVecs))
-FLGood(a) == Det(<< FLVecs[FLT[a][1]+1], FLVecs[FLT[a][2]+1], FLVecs[FLT[a][3]+1] >>) # 0
-FLFirst == CHOOSE a \in 1..Len(FLT) : FLGood(a) /\ \A b \in 1..(a-1) : ~FLGood(b)
-FLTried == SubSeq(FLT, 1, FLFirst)          \* the triples find_lattice tries, the last one is returned
-
+\* find_lattice(vecs, min_vec2 = n/d, tol, fraction_indexed = 0.9), test_vecs = vecs.  Per triple (in iter3d order):
+\*   -2  a vector shorter than min_vec2: `continue`        -1  lattice() raises BadVectors (coplanar, or checkvol:
+\*   |volume| <= min_vec2^1.5)         n >= 0  the score = number of vecs that are points of the triple's lattice
+\*   (a vector outside has a half-integer index here, so its error 1/2 exceeds every tol used)
+\* the first triple with  score / nvecs > 0.9  is returned, None when there is none
+FLVecs == << v0[1], VScale(2, v0[1]), v0[2], VAdd(v0[1], v0[2]), v0[3], VSub(v0[3], v0[2]) >>   \* collinear / coplanar first
+FL2Vecs == << VScale(2, v0[1]), v0[2], v0[3], v0[1] >>                                           \* a sublattice first
+InLat(g, A) == \A j \in Idx : CoordNum(g, A)[j] % Abs(Det(A)) = 0
+FLB(vecs, t) == << vecs[t[1]+1], vecs[t[2]+1], vecs[t[3]+1] >>
+FLStatus(vecs, t, n, d) == LET b == FLB(vecs, t)
+                               dt == Abs(Det(b))
+                               ad == Transpose(Adj(b))          \* CoordNum(g, b) = MV(ad, g)
+                           IN IF \E j \in Idx : d * Norm2(b[j]) < n THEN -2
+                              ELSE IF d*d*d * dt * dt <= n*n*n THEN -1
+                              ELSE Cardinality({ a \in 1..Len(vecs) :
+                                      LET c == MV(ad, vecs[a]) IN c[1] % dt = 0 /\ c[2] % dt = 0 /\ c[3] % dt = 0 })
+IT4 == Iter3d(4)
+IT6 == Iter3d(6)
+FLRun(vecs, n, d) ==
+   LET T == IF Len(vecs) = 4 THEN IT4 ELSE IT6
+       vv == vecs
+       \* the statuses up to and including the first accepted triple (all of them when there is none)
+       Go[a \in 1..Len(T)] == LET st == FLStatus(vv, T[a], n, d)
+                              IN IF 10 * st > 9 * Len(vv) \/ a = Len(T) THEN <<st>> ELSE <<st>> \o Go[a+1]
+       St == Go[1]
+       last == Len(St)
+       ok == 10 * St[last] > 9 * Len(vv)
+   IN [vecs |-> vv, mv2 |-> <<n, d>>, tried |-> SubSeq(T, 1, last), status |-> St,
+       found |-> B2I(ok), basis |-> IF ok THEN FLB(vv, T[last]) ELSE Z3]
+FLRuns == << FLRun(FLVecs, 1, 4), FLRun(FL2Vecs, 1, 4), FLRun(FLVecs, 5, 2) >>
 \* ---- laws ---------------------------------------------------------------------------------
 Fin1 == (pc = "done" /\ phase = 1) \/ pc = "wv"
 Fin2 == pc = "done" /\ phase = 2
@@ -315,6 +370,16 @@ WithvecOK == /\ pc # "badvec"
              /\ Fin2 => /\ Divides(MScale(2, res1), out)
                         /\ \A j \in Idx : CoordNum(wv.x2, out)[j] % Abs(Det(out)) = 0
                         /\ 2 * Abs(Det(out)) = 8 * Abs(Det(res1))
+\* find_lattice on the three lists: a returned triple generates the lattice of ALL the vectors handed in (here L(v0)),
+\* the collinear / coplanar / sublattice triples before it are passed over, and the first two runs do find one
+FindLatticeOK == Fin1 =>
+   LET R == FLRuns
+   IN /\ \A a \in 1..3 : R[a].found = 1 => SameLat(R[a].basis, v0)
+      /\ R[1].found = 1 /\ R[2].found = 1
+      /\ Len(R[1].tried) = 6 /\ Len(R[2].tried) = 4
+      \* FLStatus counts lattice membership: right because no triple has index > 2
+      /\ \A t \in {IT6[a] : a \in 1..Len(IT6)} : Abs(Det(FLB(FLVecs, t))) <= 2 * Abs(Det(v0))
+      /\ \A t \in {IT4[a] : a \in 1..Len(IT4)} : Abs(Det(FLB(FL2Vecs, t))) <= 2 * Abs(Det(v0))
 \* Minkowski reduction (brute force over coefficients -1..1, sorted by length) - not promised by the code
 LenPerm(A) == CHOOSE p \in {q \in Idx \X Idx \X Idx : q[1] # q[2] /\ q[1] # q[3] /\ q[2] # q[3]} :
                  Norm2(A[p[1]]) <= Norm2(A[p[2]]) /\ Norm2(A[p[2]]) <= Norm2(A[p[3]])
@@ -339,17 +404,16 @@ ASSUME ~IsMink(CellB("rhoO"))
 ASSUME RHE(1, 2) = 0 /\ RHE(3, 2) = 2 /\ RHE(-1, 2) = 0 /\ RHE(-3, 2) = -2 /\ RHE(5, 2) = 2 /\ RHE(7, 3) = 2 /\ RHE(-7, 3) = -2 /\ RHE(-5, 2) = -2
 
 \* ---- emission -----------------------------------------------------------------------------
-B2I(b) == IF b THEN 1 ELSE 0
 ProbeRec(n) == [m |-> PROBES[n][1], d |-> PROBES[n][2], g16 |-> G16(n), h |-> HExp(PROBES[n][1]),
                 near |-> RowComb(PROBES[n][1], v0), rem16 |-> RowComb(PROBES[n][2], out),
-                nearcol_asis |-> NearestColAsIs(out, G16(n))]
+                nearcol_asis |-> NearestColAsIs(out, G16(n)), coltie |-> B2I(ColTie(out, G16(n)))]
 Emit == /\ Fin1 /\ cent = ZeroV =>
              PrintT("@@" \o ToJson([kind |-> "red", cell |-> cell, U |-> U, v0 |-> v0, sw1 |-> sw1, red |-> red, out |-> out,
                     T |-> TT, nsw |-> nsw, nties |-> nties, neff |-> neff, swapped |-> B2I(out # red),
                     mink |-> B2I(IsMink(out)), sorted |-> B2I(SortedLen(out)),
                     probes |-> [n \in 1..Len(PROBES) |-> ProbeRec(n)],
-                    score |-> [a \in 1..Len(TOLS) |-> <<TOLS[a], ScoreExp(TOLS[a])>>],
-                    flvecs |-> FLVecs, fltried |-> FLTried]))
+                    score |-> [a \in 1..Len(TOLS) |-> <<TOLS[a], ScoreExp(TOLS[a]), ScoreColAsIs(out, TOLS[a])>>],
+                    modfix |-> B2I(MODFIX), iter3d |-> IT6, fl |-> FLRuns]))
         /\ (Fin2 \/ pc = "badvec") =>
              PrintT("@@" \o ToJson([kind |-> "wv", cell |-> cell, U |-> U, cent |-> cent, B |-> res1, x2 |-> wv.x2,
                     e |-> wv.e, w |-> wv.w, r2 |-> wv.r2, wvfix |-> B2I(WVFIX), bad |-> B2I(pc = "badvec"),
